@@ -42,6 +42,9 @@ type dkgRun struct {
 	tamper func(m wireMsg) []wireMsg
 	// silentAfter: party -> number of its messages after which everything it sends is dropped
 	hold func(m wireMsg) bool // true: keep the message in its queue for now
+	// reorder: deliver any message of the chosen link, not only its oldest (the reliable broadcast does not order a
+	// sender's consecutive broadcasts: a key may overtake its commitment)
+	reorder bool
 }
 
 func newBackend(kind string, id uint16, msgLen int) tss.KeyGenerator {
@@ -153,8 +156,12 @@ func (d *dkgRun) run(r *prng.R, active []uint16, timeout time.Duration) {
 		// deterministic order of candidate links, then a PRNG pick
 		sortLinks(links)
 		k := links[r.Intn(len(links))]
-		m := d.queues[k][0]
-		d.queues[k] = d.queues[k][1:]
+		idx := 0
+		if d.reorder {
+			idx = r.Intn(len(d.queues[k]))
+		}
+		m := d.queues[k][idx]
+		d.queues[k] = append(append([]wireMsg{}, d.queues[k][:idx]...), d.queues[k][idx+1:]...)
 		d.delivered = append(d.delivered, m)
 		d.mu.Unlock()
 		if isActive[m.to] {
@@ -175,5 +182,5 @@ func sortLinks(l [][2]uint16) {
 }
 
 func (d *dkgRun) describe() string {
-	return fmt.Sprintf("%s DKG parties=%v t=%d delivered=%d", d.kind, d.parties, d.t, len(d.delivered))
+	return fmt.Sprintf("%s DKG parties=%v t=%d delivered=%d reorder=%v", d.kind, d.parties, d.t, len(d.delivered), d.reorder)
 }
